@@ -1325,7 +1325,7 @@ pub fn run(args: &Args) -> i32 {
     let mut report = Report::new(args, spec);
     keys();
     let cap = scaled(args, args.tier.pick(40_000, 1_000_000));
-    report.run_shards(32_01, args.threads, Duration::from_secs(budget_secs(args.tier, 50, 700)), |_idx, rng, shard| {
+    report.run_shards(32_01, args.threads, Duration::from_secs(budget_secs(args.tier, 45, 700)), |_idx, rng, shard| {
         let mut done = 0;
         while done < cap && !shard.time_up() {
             done += 1;
